@@ -28,7 +28,10 @@ Window == 128 * KiB
 \* under attack: the download fails, or it completes with exactly the genuine file (the attack did not reach it);
 \* in neither case a byte that differs from the genuine file is handed to the writer
 Guarded(s) == << [err |-> TRUE, delivered_bad |-> FALSE], [err |-> FALSE, equal |-> TRUE, length |-> s, delivered_bad |-> FALSE] >>
-Attacks == {"none", "flip_first", "flip_last", "truncate", "extend", "swap", "zero"}
+\* "extend": a few bytes appended to the final (short) answer; "extend_full": every partial answer that crosses the end of
+\* the file is padded up to the requested length (it no longer looks like a final answer) while whole hash windows are
+\* served honestly
+Attacks == {"none", "flip_first", "flip_last", "truncate", "extend", "extend_full", "swap", "zero"}
 \* which request the adversary touches: the k-th data request (0-based) or the last one
 VerifyCases == { [cls |-> "verify", in |-> [kind |-> "verify", size |-> s, threads |-> t, mode |-> m, attack |-> a, at |-> k],
                   expect_any |-> IF a = "none" THEN <<[err |-> FALSE, equal |-> TRUE, length |-> s]>> ELSE Guarded(s)]
@@ -42,7 +45,7 @@ CdnCases == { [cls |-> "cdn", in |-> [kind |-> "cdn", size |-> s, part |-> p, th
                 e \in {"none", "reupload", "token_invalid"} }
 KeepCdn(c) == /\ (c.in.attack = "none" => c.in.at = 0) /\ (c.in.attack # "none" => c.in.event = "none")
               /\ (c.in.event # "none" => c.in.threads = 1)
-              /\ (c.in.threads = 3 => c.in.part \in {96 * KiB, 128 * KiB} /\ c.in.attack \in {"none", "flip_last", "extend"})
+              /\ (c.in.threads = 3 => c.in.part \in {96 * KiB, 128 * KiB} /\ c.in.attack \in {"none", "flip_last", "extend", "extend_full"})
               /\ (Thorough \/ c.in.at # 1)
 
 \* ---------------------------------------------------------------- CDN request plan
